@@ -127,6 +127,55 @@ mod verif_c18 {
 
 KANI_UFMT = r"""
 #[cfg(kani)]
+#[allow(static_mut_refs)]
+mod verif_c18_trunc {
+    use super::*;
+    // `val.to_string()` is replaced by a decimal rendering chosen by the harness: D integer digits, a dot,
+    // six fraction digits, every digit symbolic (f64's Display is far outside CBMC's reach)
+    static mut TEXT: [u8; 12] = [b'0'; 12];
+    static mut LEN: usize = 0;
+    fn text_of<T: ?Sized>(_v: &T) -> String { unsafe { String::from_utf8_unchecked(TEXT[..LEN].to_vec()) } }
+    /// THE RULE: integer digits kept in full, max(0, sig - d) decimals, truncated, no trailing zeros, no lone dot
+    fn truncation<const D: usize>() {
+        let mut digits = [0u8; 12];
+        let mut k = 0;
+        while k < D + 6 { let d: u8 = kani::any(); kani::assume(d < 10); digits[k] = d; k += 1; }
+        if D > 1 { kani::assume(digits[0] != 0); }          // no leading zeros except a lone 0
+        let mut n = 0;
+        let mut k = 0;
+        while k < D + 6 { if k == D { unsafe { TEXT[n] = b'.'; } n += 1; } unsafe { TEXT[n] = b'0' + digits[k]; } n += 1; k += 1; }
+        unsafe { LEN = n; }
+        // a value consistent with the text as far as comparisons with 1 go
+        let val: f64 = if D == 1 && digits[0] == 0 { 0.5 } else { 1.5 };
+        let sig: usize = 4;
+        let out = format_f64(val, sig);
+        let o = out.as_bytes();
+        // expected: D integer digits; then the first `keep` fraction digits up to the last non-zero one
+        let keep = if sig > D { sig - D } else { 0 };
+        let mut last = 0;       // number of fraction digits shown
+        let mut k = 0;
+        while k < keep { if digits[D + k] != 0 { last = k + 1; } k += 1; }
+        let want_len = if last == 0 { D } else { D + 1 + last };
+        assert!(o.len() == want_len, "[C18] max(0, 4 - d) decimals, integer digits in full, no trailing zeros");
+        let mut k = 0;
+        while k < D { assert!(o[k] == b'0' + digits[k], "[C18] integer digits are kept in full"); k += 1; }
+        if last > 0 {
+            assert!(o[D] == b'.');
+            let mut k = 0;
+            while k < last { assert!(o[D + 1 + k] == b'0' + digits[D + k], "[C18] decimals are truncated, not rounded"); k += 1; }
+        }
+        kani::cover!(last == keep); kani::cover!(last == 0);
+    }
+    macro_rules! trunc_harness { ($name:ident, $d:expr) => {
+        #[kani::proof] #[kani::unwind(14)] #[kani::stub(<f64 as std::string::ToString>::to_string, text_of)]
+        fn $name() { truncation::<$d>(); }
+    } }
+    trunc_harness!(truncation_d1, 1);
+    trunc_harness!(truncation_d3, 3);
+    trunc_harness!(truncation_d5, 5);
+}
+
+#[cfg(kani)]
 mod verif_c18_scale {
     use super::*;
     /// for every non-negative, non-NaN f64: the prefix is the largest of 1, K, M, G, T, P
@@ -337,6 +386,8 @@ def build(S: Sources) -> Unit:
         KaniHarness("verif_c18::std_specs", "complete", covers="trusted specs of u128::saturating_pow(10, e) and u32::try_from(usize)"),
         KaniHarness("verif_c18::from_picos_largest_unit", "complete", covers="TimeScale::from_picos, TimeScale::picos"),
         KaniHarness("verif_c18::suffixes", "complete", covers="TimeScale::suffix"),
+        *[KaniHarness(f"verif_c18_trunc::truncation_d{d}", "bounded", bound=f"renderings of {d} integer digits, a dot and six fraction digits (every digit symbolic), 4 significant figures",
+                      covers="util::fmt::format_f64 (truncation rule; f64::to_string replaced by the rendering)") for d in (1, 3, 5)],
         KaniHarness("verif_c18_scale::scale_value_prefix", "complete", covers="util::fmt::scale_value (every f64 >= 0, both byte formats)"),
         KaniHarness("verif_c18_scale::scale_suffixes", "complete", covers="util::fmt::Scale::suffix (byte sizes)"),
     ]
